@@ -201,6 +201,13 @@ Section Compat.
       destruct HF as [|b b' l l' Hb HF]; cbn.
       + split; [repeat constructor|]. destruct Hs as [HG HO]. split; [exact HG|]. cbn. constructor; assumption.
       + split; [constructor|exact Hs].
+    - (* PAddC *)
+      destruct HF as [|a a' l l' Ha HF]; [cbn; split; [constructor|exact Hs]|].
+      destruct HF as [|b b' l l' Hb HF].
+      { inversion Ha; subst; cbn; (split; [constructor|exact Hs]). }
+      destruct HF as [|c c' l l' Hc HF].
+      { inversion Ha; subst; inversion Hb; subst; cbn; (split; [repeat constructor|exact Hs]). }
+      inversion Ha; subst; inversion Hb; subst; cbn; (split; [repeat constructor|exact Hs]).
   Qed.
 
   Lemma datum_rel d : vrel (val_of_datum d) (val_of_datum d).
